@@ -105,6 +105,22 @@ func (w *World) enabledActions(fair bool) []Action {
 	return acts
 }
 
+// frozenFor returns the call for which the clock is frozen, if it has not returned yet.
+func (w *World) frozenFor() *Call {
+	w.mu.Lock()
+	defer w.mu.Unlock()
+	if w.freeze != nil && w.freeze.ReturnSeq != 0 {
+		w.freeze = nil
+	}
+	return w.freeze
+}
+
+func (w *World) unfreeze() {
+	w.mu.Lock()
+	w.freeze = nil
+	w.mu.Unlock()
+}
+
 func (w *World) faultsInc(kind string) {
 	w.mu.Lock()
 	w.faults[kind]++
@@ -141,6 +157,17 @@ func (w *World) doStep(fair bool) bool {
 	// the tick actions: low, geometrically decreasing weight while other actions
 	// exist; when nothing else is enabled one of them is forced (escalating)
 	idle := len(acts) == 0
+	frozen := false
+	if c := w.frozenFor(); c != nil {
+		if idle {
+			// nothing but the clock can act and the stub has still not returned
+			w.rule("C06.no-send-waiting-needs-no-timer", false)
+			w.violate("C06", "no-send-waiting-waits", "", "call t%d (%s with the no-send-waiting option, issued on an idle manager whose node %v is not connected) has not returned and nothing but the clock can make progress: it waits for the connection (dial timeout): %s", c.Tok, c.Stub, w.Cfg.Down, w.whereIs(c))
+			w.unfreeze()
+		} else {
+			frozen = true
+		}
+	}
 	if !idle {
 		w.idleTicks = 0
 		w.idleRun = 0
@@ -148,6 +175,9 @@ func (w *World) doStep(fair bool) bool {
 		w.idleRun++
 	}
 	for i, d := range tickChoices {
+		if frozen {
+			break
+		}
 		d := d
 		wt := w.Cfg.TickP / float64(int(1)<<uint(i+1))
 		acts = append(acts, Action{Key: "tick:" + d.String(), Kind: "tick", Weight: wt, run: func(uint64) { w.tick(d) }})
